@@ -149,7 +149,11 @@ def check(case, ctx):
         ctx.mark_nontrivial(case)
         ctx.label("repeated-eigenvalue")
     if m == "subgraph":
-        r = run(bct.subgraph_centrality, gen.layout(W.copy(), case.get("order")))
+        X = gen.layout(W.copy(), case.get("order"))
+        r = run(bct.subgraph_centrality, X)
+        r_again = run(bct.subgraph_centrality, X)          # history: second call on the very same array object
+        if r is not None and r_again is not None and not np.allclose(np.asarray(r_again, dtype=float), np.asarray(r, dtype=float), rtol=1e-9, atol=1e-12):
+            fails.append(Failure("subgraph_centrality:second-call-on-same-array-differs", "first %s, second %s" % (np.asarray(r)[:3], np.asarray(r_again)[:3]), case))
         if r is not None:
             r = np.asarray(r, dtype=float).ravel()
             want = np.diag(sla.expm(W))
@@ -159,7 +163,11 @@ def check(case, ctx):
                                      "node %d: returned %r, expm(A)[v,v] = %r" % (v, r[v] if v >= 0 else r, want[v] if v >= 0 else want), case,
                                      {"repeated": repeated}))
     elif m == "eigenvector":
-        r = run(bct.eigenvector_centrality_und, gen.layout(W.copy(), case.get("order")))
+        X = gen.layout(W.copy(), case.get("order"))
+        r = run(bct.eigenvector_centrality_und, X)
+        r_again = run(bct.eigenvector_centrality_und, X)
+        if r is not None and r_again is not None and not repeated and not np.allclose(np.asarray(r_again, dtype=float), np.asarray(r, dtype=float), rtol=1e-9, atol=1e-12):
+            fails.append(Failure("eigenvector_centrality_und:second-call-on-same-array-differs", "", case))
         if r is not None:
             v = np.asarray(r, dtype=float).ravel()
             lam = float(ev.max())
@@ -273,6 +281,12 @@ def walk_graph(draw, nmax):
     if draw(st.booleans()):
         A = gen.apply_perm(A, draw(gen.perm(n)))
     W = draw(gen.weights_for(A, draw(st.sampled_from(["bin", "dyadic", "float"])), directed))
+    if draw(st.integers(0, 2)) == 0:
+        # self-connections (a lazy walk): the defining equations hold for the network's own transition matrix
+        d = draw(st.lists(st.integers(0, 4), min_size=n, max_size=n))
+        for i, v in enumerate(d):
+            W[i, i] = v / 4.0
+        fam = fam + "+selfloops"
     return W, fam
 
 
